@@ -18,11 +18,14 @@ import (
 
 func c10Fuzz(f *testing.F, target string) {
 	facet := "C10/" + target
-	if w := flag.Lookup("test.fuzzworker"); w != nil && w.Value.String() == "true" {
-		// worker processes share VERIF_SHARD with the coordinator: give each its own statistics file
-		os.Setenv("VERIF_SHARD", os.Getenv("VERIF_SHARD")+"-w"+strconv.Itoa(os.Getpid()))
-	}
-	defer veriflib.Flush()
+	defer func() {
+		if w := flag.Lookup("test.fuzzworker"); w != nil && w.Value.String() == "true" {
+			// worker processes share VERIF_SHARD with the coordinator: give each its own statistics file
+			// (only now: failure files written while fuzzing must carry the shard's own name for the driver)
+			os.Setenv("VERIF_SHARD", os.Getenv("VERIF_SHARD")+"-w"+strconv.Itoa(os.Getpid()))
+		}
+		veriflib.Flush()
+	}()
 	var rc c10Case
 	if veriflib.ReplayCase(facet, &rc) {
 		rc.Target = target
